@@ -35,7 +35,7 @@ from vp.farm import Case, fp_of
 from vp.gen import modeldb as G
 
 PROP = "C16"
-LEVEL = "exploration"
+LEVEL = "fault_enumeration"
 RULE = (
     "crash cases (the first block of indices, 5 consecutive indices share one workload: exception / exit flavour "
     "x first / second half of the k, torn flavour): a random workload = open context + 2..4 operations "
